@@ -281,6 +281,9 @@ func selClass(r *NegResult) string {
 		return "none"
 	}
 	sh := r.Obs.SH[0]
+	if !sh.IsHRR && sh.SelectedVersion != 0x0304 {
+		return "tls12-kex" // TLS <= 1.2: no key_share negotiation
+	}
 	g := sh.SelectedGroup
 	hybrid := g == 4588 || g == 0x6399
 	nclass := 0
